@@ -460,3 +460,17 @@ pub enum GS<V> {
 /// `S<DeserType<V>>` has no field of type `Vec<V>`.)
 #[derive(Epserde, Debug, Clone, PartialEq, Eq)]
 pub struct GTS<V, W>(pub V, pub Vec<W>, pub u8);
+
+/// deep-copy definitions with a *bounded* type parameter that is the type of a
+/// field: the bound has to be carried over to the (de)serialization types
+#[derive(Epserde, Debug, Clone, PartialEq, Eq)]
+pub struct GBS<V: Clone> {
+    pub a: u8,
+    pub b: V,
+}
+#[derive(Epserde, Debug, Clone, PartialEq, Eq)]
+pub enum GB<V: Clone> {
+    N,
+    S { a: u8, b: V },
+    T(V),
+}
